@@ -22,14 +22,21 @@ class Preempt:
     chosen ones.  points = [(line event number, hold duration)]"""
 
     def __init__(self, stack, points):
-        self.stack = stack
+        # stack: int = the job thread of that stack; ['R', i] = the (controlled) receive thread of stack i
+        self.kind = 'J' if isinstance(stack, int) else stack[0]
+        self.stack = stack if isinstance(stack, int) else stack[1]
         self.points = dict(points)
         self.count = 0
         self.where = []
         self.world = None
+        self.seen = {'J': 0, 'R': 0}
 
     def __call__(self, lt, idx):
-        if lt.kind != 'J' or idx != self.stack:
+        if lt.kind not in self.seen:
+            return None
+        k = self.seen[lt.kind]
+        self.seen[lt.kind] += 1
+        if lt.kind != self.kind or k != self.stack:
             return None
         me = self
 
@@ -91,7 +98,7 @@ def worker(item):
                 acc.case((repr(sc), stack, i, dur), outcome=outcome)
                 if probs:
                     acc.violation(csig(probs, where), dict(sc, preempt={'stack': stack, 'points': [[i, dur]]}), None,
-                                  probs[:3] + ["job thread held at %s" % where])
+                                  probs[:3] + ["%s thread held at %s" % ('job' if isinstance(stack, int) else 'receive', where)])
     else:
         for (i, j) in pairs:
             for (d1, d2) in ((0.001, 0.001), (0.005, 0.0002)):
@@ -140,6 +147,30 @@ def scenarios(tier):
     return out
 
 
+def scenarios_rx(tier):
+    """the mirror image: the receive thread is held part-way through handling a frame (after it has woken the job thread,
+    between two updates of a session) while the job thread runs its pass"""
+    quick = tier == 'quick'
+    out = []
+    for dll in ('j1939-21', 'j1939-22'):
+        seg = 7 if dll == 'j1939-21' else 60
+        for (wa, wb) in (((1, 1), (255, 255)) if quick else ((1, 1), (2, 2), (255, 255))):
+            sc = two(dll, wa, wb)
+            sc['rx_threads'] = True
+            sc['msgs'] = [msg(0x10, 'p2p', 0x20, seg * 3 - 2)]
+            out.append(sc)
+        sc = two(dll, 1, 1)
+        sc['rx_threads'] = True
+        sc['msgs'] = [msg(0x10, 'bam2', 0x33, seg * 3 - 2)]
+        out.append(sc)
+        if not quick:
+            sc = two(dll, 2, 3)
+            sc['rx_threads'] = True
+            sc['msgs'] = [msg(0x10, 'p2p', 0x20, seg * 3 - 1), msg(0x20, 'p2p', 0x10, seg * 2 + 1)]
+            out.append(sc)
+    return out
+
+
 def baseline_frames(sc):
     d = Driver(sc, (), 0)
     try:
@@ -153,8 +184,9 @@ RULE = ("scenario = layer x {RTS/CTS with windows 1, 2, all; BAM} x 3 (thorough 
         "transfers with every single frame lost (so that the passes that serve timeouts and aborts are pre-empted too); a baseline run "
         "numbers the line events the job thread of each stack executes inside the library; then every line event x hold duration "
         "{0.2,1,5 ms} x either stack is one run with one pre-emption (exhaustive); thorough adds all ordered pairs of line events on the "
-        "smallest scenario of each kind; distinct by (scenario, stack, line event(s), hold); all non-trivial")
-ASSUME = ["pre-emption granularity is a source line of the library executed by the job thread; other threads are not pre-empted",
+        "smallest scenario of each kind; mirrored scenarios (controlled receive threads): every line event of either stack's receive "
+        "thread inside the library x hold, while the job thread runs; distinct by (scenario, thread, line event(s), hold); all non-trivial")
+ASSUME = ["pre-emption granularity is a source line of the library executed by the job thread (or, in the mirrored scenarios, by the receive thread); one thread is pre-empted per run",
           "while held, every other thread of the world runs normally (including the receive handler of the same stack)",
           "line-event numbering is checked to be reproducible (baseline executed twice)"]
 
@@ -173,6 +205,17 @@ def run(tier, seed):
             step = 25
             for lo in range(1, n1 + 1, step):
                 items.append((sc, stack, lo, min(lo + step, n1 + 1), None, seed))
+    for sc in scenarios_rx(tier):
+        for stack in (0, 1):
+            tgt = ['R', stack]
+            n1 = run_one(sc, tgt, [], seed)[0]
+            n2 = run_one(sc, tgt, [], seed)[0]
+            if n1 != n2:
+                print("HARNESS-ERROR property=%s line-event numbering of the receive thread not reproducible (%d vs %d)" % (PROP, n1, n2))
+                return 2
+            nline[(repr(sc), 'R%d' % stack)] = n1
+            for lo in range(1, n1 + 1, 25):
+                items.append((sc, tgt, lo, min(lo + 25, n1 + 1), None, seed))
     if tier != 'quick':
         for dll in ('j1939-21', 'j1939-22'):
             seg = 7 if dll == 'j1939-21' else 60
@@ -194,7 +237,7 @@ def replay(rec):
     pre = sc.pop('preempt')
     n, probs, outcome, where, trace = run_one(sc, pre['stack'], [tuple(p) for p in pre['points']], rec.get('seed', 0), keep=True)
     print("\n".join(trace))
-    print("job thread of stack %d held at %s" % (pre['stack'], where))
+    print("thread %r held at %s" % (pre['stack'], where))
     if probs:
         print("REPRODUCED: " + "; ".join(probs[:3]))
         print("VIOLATION property=%s replay=(this file)" % PROP)
